@@ -123,3 +123,179 @@ def single_function_contract(return_params):
         return out
 
     return Contract("single_function", params, ensures=ensures, setup=setup, raises=lambda S, a, e: z3.BoolVal(False))
+
+
+# ------------------------------------------------------------ label post-processing of fit_from_string / string_to_aifeyn (C18)
+import ast as _ast
+
+
+def _relabel_region(fnode):
+    """from `new_labels = [None] * len(labels)` to the end of the `if replace_floats:` statement"""
+    start = end = None
+    for k, s in enumerate(fnode.body):
+        if start is None and isinstance(s, _ast.Assign) and getattr(s.targets[0], "id", None) == "new_labels":
+            start = k
+        if start is not None and isinstance(s, _ast.If) and getattr(s.test, "id", None) == "replace_floats":
+            end = k
+            break
+    if start is None or end is None:
+        return None
+    return fnode.body[start:end + 1]
+
+
+def relabel_contract(func):
+    """The label list after the post-processing (labels0 = what DecoratedNode.to_list returned, m = MAP(labels0)):
+         MAP: 'Mul' -> '*', 'Add' -> '+', 'Div' -> '/', 'Sub' -> '-', everything else lower-cased;
+         without replace_floats:  labels[j] = m[j]  for every j  (numbers keep their text);
+         with replace_floats:     labels[j] = 'a<k>' exactly for the positions that are a number whose parent operator is not pow, or that
+                                  already look like a parameter, k counting those positions in order; every other label -- in particular a
+                                  number directly under pow -- is m[j]."""
+    from pyvc.engine import LoopSpec
+    from pyvc.models import CNT, IDX, RNK, mask_array, filter_axioms, STRLOWER, ISFLOAT, STRTAIL
+    NL = z3.Int("nlabels")
+
+    def mk_labels(eng, st):
+        v = eng.fresh(T.list(T.label), "labels", st)
+        st.heap[v.addr].len = NL
+        st.ghost["labels0"] = st.heap[v.addr].get
+        return v
+
+    def L(eng, s):
+        return eng.label_of(s)
+
+    def MAP(eng, t):
+        return z3.If(t == L(eng, "Mul"), L(eng, "*"), z3.If(t == L(eng, "Add"), L(eng, "+"), z3.If(t == L(eng, "Div"), L(eng, "/"), z3.If(t == L(eng, "Sub"), L(eng, "-"), STRLOWER(t)))))
+
+    def starts_a(eng, t):
+        return z3.Function("str.startswith:a", Label, z3.BoolSort())(t)
+
+    def paramlike(eng, t):
+        return z3.And(starts_a(eng, t), ISFLOAT(STRTAIL(t, z3.IntVal(1))))
+
+    def setup(eng, st, args):
+        P = z3.Function("tree.parent", z3.IntSort(), z3.IntSort())
+        st.ghost["PAR"] = P
+
+        def labels_to_shape(e, s, a, k, node):
+            o = s.heap[a[0].addr]
+            return s.alloc(HSeq(o.len, lambda q: VInt(z3.Function("shape.at", z3.IntSort(), z3.IntSort())(q)), etype=T.int))
+
+        def check_tree(e, s, a, k, node):
+            from pyvc.values import HRec, VMaybeNone
+            o = s.heap[a[0].addr]
+            # the label list is a well-formed prefix expression (string_to_node; bounded part): every node but the root has a parent before it
+            tree = s.alloc(HRec(o.len, {"parent": (lambda q: VMaybeNone(q == 0, VInt(P(q))))}, "Node", {"parent": T.opt(T.int)}))
+            return VTuple([VBool(True), VNone(), tree])
+        eng.models["generator.labels_to_shape"] = labels_to_shape
+        eng.models["generator.check_tree"] = check_tree
+        q = z3.Int("q!par")
+        eng.axioms.append(z3.ForAll([q], z3.Implies(q >= 1, z3.And(0 <= P(q), P(q) < q)), patterns=[P(q)]))
+        for lit in ("Mul", "Add", "Div", "Sub", "*", "+", "/", "-", "pow", "a"):
+            eng.label_of(lit)
+
+    def m_of(S, q):
+        return MAP(S.eng, S.st.ghost["labels0"](q).t)
+
+    def pmask1(S):
+        ma = mask_array(S.eng, S.st, lambda q: z3.Or(ISFLOAT(m_of(S, q)), paramlike(S.eng, m_of(S, q))))
+        filter_axioms(S.eng, ma, NL)
+        return ma
+
+    def pmask2(S):
+        P = S.st.ghost["PAR"]
+        powl = L(S.eng, "pow")
+
+        def under_pow(q):
+            return z3.And(q >= 1, STRLOWER(m_of(S, P(q))) == powl)
+        ma = mask_array(S.eng, S.st, lambda q: z3.Or(z3.And(ISFLOAT(m_of(S, q)), z3.Not(under_pow(q))), paramlike(S.eng, m_of(S, q))))
+        filter_axioms(S.eng, ma, NL)
+        return ma, under_pow
+
+    def fmt(S, k):
+        return S.eng.label_fn("fmt:a%i", z3.IntSort())(k)
+
+    def inv1(S, st):
+        j = S.i(S.var("__i"))
+        lab, new = S.seq(S.var("labels")), S.seq(S.var("new_labels"))
+        l0 = st.ghost["labels0"]
+        q = z3.Int("q!i1")
+        return [("the first j labels are mapped in both lists, the rest of `labels` is untouched",
+                 z3.And(lab.len == NL, new.len == NL,
+                        z3.ForAll([q], z3.Implies(z3.And(0 <= q, q < NL), z3.If(q < j, z3.And(lab.get(q).t == m_of(S, q), _lab(new.get(q)) == m_of(S, q)), lab.get(q).t == l0(q).t)))))]
+
+    def _lab(v):
+        from pyvc.values import VMaybeNone
+        if isinstance(v, VMaybeNone):
+            return v.val.t
+        if isinstance(v, VNone):
+            return z3.Const("none!label", Label)
+        return v.t
+
+    def link(S, ma):
+        """the code's own mask (the filter of the comprehension that built param_idx) agrees with the specification's"""
+        from pyvc.models import filter_ext
+        pi = S.seq(S.var("param_idx"))
+        if pi.note and pi.note[0] == "filter":
+            filter_ext(S.eng, pi.note[1], ma, pi.note[2])
+            if not pi.note[2].eq(NL):
+                S.eng.axioms.append(z3.Implies(pi.note[2] == NL, z3.And(CNT(pi.note[1], pi.note[2]) == CNT(pi.note[1], NL))))
+
+    def inv2(S, st):
+        k = S.i(S.var("__i"))
+        ma = pmask1(S)
+        link(S, ma)
+        new, lab = S.seq(S.var("new_labels")), S.seq(S.var("labels"))
+        pi = S.seq(S.var("param_idx"))
+        q, r = z3.Int("q!i2"), z3.Int("r!i2")
+        return [("new_labels: the first k parameter positions are renamed, the rest is the mapped text; labels is the mapped text",
+                 z3.And(new.len == NL, lab.len == NL, pi.len == CNT(ma, NL),
+                        z3.ForAll([r], z3.Implies(z3.And(0 <= r, r < pi.len), pi.get(r).t == IDX(ma, NL, r))),
+                        z3.ForAll([q], z3.Implies(z3.And(0 <= q, q < NL), z3.And(lab.get(q).t == m_of(S, q),
+                                                                               _lab(new.get(q)) == z3.If(z3.And(z3.Select(ma, q), RNK(ma, NL, q) < k), fmt(S, RNK(ma, NL, q)), m_of(S, q)))))))]
+
+    def inv3(S, st):
+        k = S.i(S.var("__i"))
+        ma, _ = pmask2(S)
+        link(S, ma)
+        lab = S.seq(S.var("labels"))
+        pi = S.seq(S.var("param_idx"))
+        q, r = z3.Int("q!i3"), z3.Int("r!i3")
+        return [("labels: the first k replaceable positions are renamed, the rest is the mapped text",
+                 z3.And(lab.len == NL, pi.len == CNT(ma, NL),
+                        z3.ForAll([r], z3.Implies(z3.And(0 <= r, r < pi.len), pi.get(r).t == IDX(ma, NL, r))),
+                        z3.ForAll([q], z3.Implies(z3.And(0 <= q, q < NL), lab.get(q).t == z3.If(z3.And(z3.Select(ma, q), RNK(ma, NL, q) < k), fmt(S, RNK(ma, NL, q)), m_of(S, q))))))]
+
+    def loop_select(node):
+        src = _ast.dump(node.iter)
+        if "labels" in src and "param_idx" not in src:
+            return LoopSpec(inv1, havoc_types={"lab": T.label, "j": T.int, "new_labels": T.list(T.label)})
+        stores = {getattr(getattr(n, "value", None), "id", None) for b in node.body for n in _ast.walk(b) if isinstance(n, _ast.Subscript) and isinstance(n.ctx, _ast.Store)}
+        if "new_labels" in stores:
+            return LoopSpec(inv2, havoc_types={"k": T.int, "j": T.int})
+        if "labels" in stores:
+            return LoopSpec(inv3, havoc_types={"k": T.int, "j": T.int})
+        return None
+
+    def requires(S, a):
+        ma = pmask1(S)
+        return [("at least one label; at most maxvar parameter-like labels (else the assert fires)", z3.And(NL >= 1, CNT(ma, NL) <= a["maxvar"].t))]
+
+    def ensures(S, a, res):
+        lab = S.seq(a["labels"])
+        ma, under_pow = pmask2(S)
+        rf = S.b(a["replace_floats"])
+        q = z3.Int(fresh_name("q!sk"))
+        inr = z3.And(0 <= q, q < NL)
+        mq = m_of(S, q)
+        return [("the list keeps its length", lab.len == NL),
+                ("without replace_floats every label is the mapped text of what the tree walk returned (numbers keep their text)", z3.Implies(z3.And(z3.Not(rf), inr), lab.get(q).t == mq)),
+                ("with replace_floats: a number directly under pow that does not look like a parameter keeps its text",
+                 z3.Implies(z3.And(rf, inr, ISFLOAT(mq), under_pow(q), z3.Not(paramlike(S.eng, mq))), lab.get(q).t == mq)),
+                ("with replace_floats: exactly the numbers not under pow and the parameter-like labels become a<k>, k counting them in order; everything else is the mapped text",
+                 z3.Implies(z3.And(rf, inr), lab.get(q).t == z3.If(z3.Select(ma, q), fmt(S, RNK(ma, NL, q)), mq)))]
+
+    c = Contract(func, {"labels": mk_labels, "basis_functions": T.fn, "maxvar": T.int, "replace_floats": T.bool},
+                 requires=requires, ensures=ensures, setup=setup, region=_relabel_region, raises=lambda S, a, e: z3.BoolVal(False))
+    c.region_name = "relabel: operator names, parameters, replace_floats"
+    c.loop_select = loop_select
+    return c
